@@ -184,6 +184,133 @@ var (
 	c33FactoryChild   = crypto.CreateAddress2(c33Factory, [32]byte{}, crypto.Keccak256(c33FactoryInit))
 )
 
+// c33Reader is a second helper contract in the genesis allocation: a call with calldata
+// (slot, k0, count, step) folds the hashes of count ancestors into one word,
+//
+//	acc = 0; k = k0; repeat count times { acc = acc*3 + BLOCKHASH(NUMBER-k); k += step }
+//
+// stores it to slot and emits it as LOG0 data. 3 is odd, so a single wrong hash always
+// changes acc. The block-hash resolver of the EVM block context walks the header chain
+// backwards for ancestors older than the parent (and remembers what it has seen), so
+// several such transactions in one block of a deep chain make the workers of the
+// parallel processor resolve old ancestors at the same time.
+var (
+	c33Reader        = common.HexToAddress("0xb10c000000000000000000000000000000000033")
+	c33ReaderRuntime = func() []byte {
+		a := ep.NewAsm(true)
+		top, end := a.NewLabel(), a.NewLabel()
+		a.PushU(0)                            // acc
+		a.PushU(0x20).Op(ep.CALLDATALOAD)     // k
+		a.PushU(0x40).Op(ep.CALLDATALOAD)     // n          [acc k n]
+		a.Bind(top)                           //
+		a.Op(ep.DUP1, ep.ISZERO).Jumpi(end)   // n == 0: done
+		a.Op(ep.DUP1+1, ep.NUMBER, ep.SUB)    // NUMBER-k   [acc k n num-k]
+		a.Op(ep.BLOCKHASH)                    //            [acc k n h]
+		a.Op(ep.SWAP1 + 2)                    //            [h k n acc]
+		a.PushU(3).Op(ep.MUL)                 //            [h k n 3acc]
+		a.Op(ep.DUP1+3, ep.ADD)               //            [h k n acc']
+		a.Op(ep.SWAP1+2, ep.POP)              //            [acc' k n]
+		a.Op(ep.SWAP1)                        //            [acc' n k]
+		a.PushU(0x60).Op(ep.CALLDATALOAD)     // step
+		a.Op(ep.ADD, ep.SWAP1)                //            [acc' k' n]
+		a.PushU(1).Op(ep.SWAP1, ep.SUB)       //            [acc' k' n-1]
+		a.Jump(top)                           //
+		a.SetDepth(3).Bind(end)               //            [acc k n]
+		a.Op(ep.POP, ep.POP)                  //            [acc]
+		a.Op(ep.DUP1)                         //            [acc acc]
+		a.PushU(0).Op(ep.CALLDATALOAD)        //            [acc acc slot]
+		a.Op(ep.SSTORE)                       //            [acc]
+		a.PushU(0).Op(ep.MSTORE)              // mem[0:32] = acc
+		a.PushU(32).PushU(0).Op(ep.LOG0, ep.STOP)
+		return a.MustBytes()
+	}()
+)
+
+// c33ReaderCall is one engineered call of c33Reader.
+type c33ReaderCall struct {
+	plan            *worldgen.TxPlan
+	slot, k0, count uint64
+	down            bool // step -1 instead of +1
+}
+
+func (rc *c33ReaderCall) data() []byte {
+	out := make([]byte, 128)
+	put := func(i int, v uint64) { new(big.Int).SetUint64(v).FillBytes(out[32*i : 32*i+32]) }
+	put(0, rc.slot)
+	put(1, rc.k0)
+	put(2, rc.count)
+	if rc.down {
+		copy(out[96:], common.MaxHash[:]) // -1
+	} else {
+		put(3, 1)
+	}
+	return out
+}
+
+// older counts the lookups that go to an ancestor older than the parent and inside the
+// 256 block window of block number n (the ones the resolver has to walk headers for).
+func (rc *c33ReaderCall) older(n uint64) int {
+	cnt := 0
+	k := int64(rc.k0)
+	for i := uint64(0); i < rc.count; i++ {
+		if k >= 2 && k <= 256 && uint64(k) <= n {
+			cnt++
+		}
+		if rc.down {
+			k--
+		} else {
+			k++
+		}
+	}
+	return cnt
+}
+
+// expected computes the word the call stores, from the canonical header chain.
+func (rc *c33ReaderCall) expected(n uint64, hashOf func(number uint64) common.Hash) common.Hash {
+	acc, three := new(uint256.Int), uint256.NewInt(3)
+	k := int64(rc.k0)
+	for i := uint64(0); i < rc.count; i++ {
+		h := new(uint256.Int)
+		if k >= 1 && k <= 256 && uint64(k) <= n {
+			h.SetBytes32(hashOf(n - uint64(k)).Bytes())
+		}
+		acc.Mul(acc, three)
+		acc.Add(acc, h)
+		if rc.down {
+			k--
+		} else {
+			k++
+		}
+	}
+	return acc.Bytes32()
+}
+
+// c33Deepen puts filler blocks (no transactions) in front of the drawn chain, so that a
+// share of the examined blocks sits on a deep chain (the drawn chain itself has 1-2
+// blocks). Returns the number of filler blocks.
+func c33Deepen(rt *rapid.T, w *worldgen.World) int {
+	f := 0
+	switch c33Pick(rt, "depth-class", []int{9, 3, 4, 3, 1}) {
+	case 1:
+		f = 1 + ep.Uniform(rt, "depth-small", 4)
+	case 2:
+		f = 5 + ep.Uniform(rt, "depth-medium", 26)
+	case 3:
+		f = 31 + ep.Uniform(rt, "depth-large", 70)
+	case 4:
+		f = 250 + ep.Uniform(rt, "depth-window", 12) // around the 256 block BLOCKHASH window
+	}
+	if f == 0 {
+		return 0
+	}
+	filler := make([]*worldgen.BlockPlan, f)
+	for i := range filler {
+		filler[i] = &worldgen.BlockPlan{Coinbase: worldgen.FreshCoinbase, CoinbaseClass: "fresh"}
+	}
+	w.Blocks = append(filler, w.Blocks...)
+	return f
+}
+
 type c33CreateCall struct {
 	create, call *worldgen.TxPlan
 }
@@ -198,11 +325,13 @@ func c33BasePlan(rt *rapid.T, w *worldgen.World) *worldgen.TxPlan {
 	return p
 }
 
-// c33Engineer adds plans to the last block and returns the labels of what was added.
-func c33Engineer(rt *rapid.T, w *worldgen.World) []string {
+// c33Engineer adds plans to the last block and returns the labels of what was added
+// (and the engineered calls of c33Reader).
+func c33Engineer(rt *rapid.T, w *worldgen.World) ([]string, []*c33ReaderCall) {
 	last := w.Blocks[len(w.Blocks)-1]
 	var labels []string
 	var pairs []c33CreateCall
+	var readers []*c33ReaderCall
 	addr := func(a common.Address) *common.Address { return &a }
 	insertAfter := func(p *worldgen.TxPlan, minPos int) int {
 		pos := minPos + ep.Uniform(rt, "eng-pos", len(last.Txs)-minPos+1)
@@ -210,6 +339,7 @@ func c33Engineer(rt *rapid.T, w *worldgen.World) []string {
 		return pos
 	}
 	w.Genesis.Alloc[c33Factory] = types.Account{Nonce: 1, Code: c33FactoryRuntime, Balance: new(big.Int)}
+	w.Genesis.Alloc[c33Reader] = types.Account{Nonce: 1, Code: c33ReaderRuntime, Balance: new(big.Int)}
 	n := c33Pick(rt, "eng-count", []int{1, 3, 3, 2})
 	for k := 0; k < n; k++ {
 		switch c33Pick(rt, "eng-kind", []int{3, 3, 3, 3, 2}) {
@@ -316,6 +446,59 @@ func c33Engineer(rt *rapid.T, w *worldgen.World) []string {
 			labels = append(labels, "fund-spend")
 		}
 	}
+	// blockhash-readers: several transactions of the block look up many ancestors (most
+	// of them older than the parent) and store / log what they got. Always drawn on a
+	// deep chain (that is what the filler blocks are for), sometimes on a shallow one.
+	number := uint64(len(w.Blocks)) // number of the examined block
+	readerOdds := []int{3, 1}
+	if number >= 4 {
+		readerOdds = []int{1, 2}
+	}
+	if c33Pick(rt, "eng-readers", readerOdds) == 1 {
+		window := min(number, 256)
+		span := func(label string) uint64 { // deepest distance looked at
+			switch c33Pick(rt, label, []int{4, 1, 2}) {
+			case 0:
+				return window
+			case 1:
+				return window + 1 + uint64(ep.Uniform(rt, label+"-over", 3)) // beyond the chain / the window: zero hashes
+			default:
+				return 1 + uint64(ep.Uniform(rt, label+"-any", int(window)))
+			}
+		}
+		mode := c33Pick(rt, "eng-readers-mode", []int{3, 3, 2})
+		deepest := span("eng-readers-span")
+		nr := 2 + ep.Uniform(rt, "eng-readers-few", 5)
+		if c33Pick(rt, "eng-readers-many", []int{2, 1}) == 1 {
+			nr = 7 + ep.Uniform(rt, "eng-readers-n", 18)
+		}
+		for i := 0; i < nr; i++ {
+			rc := &c33ReaderCall{plan: c33BasePlan(rt, w), slot: 0x100 + uint64(i)}
+			d := deepest
+			if ep.Uniform(rt, "eng-readers-own-span", 4) == 0 {
+				d = span("eng-readers-span-tx")
+			}
+			switch m := mode; {
+			case m == 0 || d < 2: // oldest first: d, d-1, ..., 2 (one long walk, then remembered hashes)
+				rc.k0, rc.count, rc.down = d, max(d, 2)-1, true
+			case m == 1: // youngest first: 2, 3, ..., d (every lookup one step further back)
+				rc.k0, rc.count = 2, d-1
+			default: // anywhere
+				rc.k0 = uint64(ep.Uniform(rt, "eng-readers-k0", int(d)+1))
+				rc.down = ep.Uniform(rt, "eng-readers-down", 2) == 1
+				if rc.down {
+					rc.count = 1 + uint64(ep.Uniform(rt, "eng-readers-count", int(rc.k0)+1))
+				} else {
+					rc.count = 1 + uint64(ep.Uniform(rt, "eng-readers-count", int(d)+2))
+				}
+			}
+			rc.plan.TargetClass, rc.plan.To, rc.plan.Data = "blockhash-reader", addr(c33Reader), rc.data()
+			rc.plan.ValClass, rc.plan.GasClass = worldgen.ValZero, worldgen.Gas250k
+			insertAfter(rc.plan, 0)
+			readers = append(readers, rc)
+		}
+		labels = append(labels, "blockhash-readers")
+	}
 	// Resolve the addresses of created contracts: nonce of the creator when its create
 	// plan runs = genesis nonce + number of its earlier plans (skipped plans and
 	// authorizations make this a prediction, not a guarantee; hits are measured).
@@ -335,7 +518,7 @@ func c33Engineer(rt *rapid.T, w *worldgen.World) []string {
 		}
 		pr.call.To = addr(crypto.CreateAddress(worldgen.Keys[sender].Addr, nonce))
 	}
-	return labels
+	return labels, readers
 }
 
 // ---------------------------------------------------------------------------------
@@ -346,6 +529,7 @@ type c33Outcome struct {
 	root common.Hash
 	st   *state.StateDB
 	err  error
+	met  uint64 // gated header lookups that met another one (c33GatedChain)
 }
 
 func c33Rules(cfg *params.ChainConfig, b *types.Block) params.Rules {
@@ -357,13 +541,52 @@ type c33Setup struct {
 	real     bool // as BlockChain.ProcessBlock does: shared cached reader + access-list prefetcher + trie prefetcher
 	threads  int  // prefetch threads of the shared reader
 	trieWarm bool // StartPrefetcher
+	gate     int  // > 0: the processor reads headers through a c33GatedChain with this per-lookup bound
 }
 
 func (s c33Setup) String() string {
-	if !s.real {
-		return "plain-state"
+	g := ""
+	if s.gate > 0 {
+		g = fmt.Sprintf("+header-gate(%d)", s.gate)
 	}
-	return fmt.Sprintf("shared-reader(threads=%d,trie-prefetcher=%v)", s.threads, s.trieWarm)
+	if !s.real {
+		return "plain-state" + g
+	}
+	return fmt.Sprintf("shared-reader(threads=%d,trie-prefetcher=%v)%s", s.threads, s.trieWarm, g)
+}
+
+// c33GatedChain is the core.ChainContext handed to the processor in a share of the
+// parallel runs: the chain itself, except that a header lookup for an ancestor older
+// than the examined block's parent (these only come from BLOCKHASH resolution inside
+// transactions) first waits, bounded, until another goroutine has arrived at such a
+// lookup too. Workers that resolve old ancestors at the same time are thereby stepped
+// through their header walks alternately instead of (most of the time) one after the
+// other. Nothing but timing changes; when the bound (per lookup: step yields, per run:
+// budget yields) expires the lookup simply proceeds, which only costs sensitivity.
+type c33GatedChain struct {
+	*core.BlockChain
+	below    uint64 // lookups for numbers < below are gated
+	step     int
+	budget   atomic.Int64
+	arrivals atomic.Uint64
+	met      atomic.Uint64 // lookups that were released by another arrival
+}
+
+func (g *c33GatedChain) GetHeader(hash common.Hash, number uint64) *types.Header {
+	if number < g.below {
+		my := g.arrivals.Add(1)
+		for i := 0; ; i++ {
+			if g.arrivals.Load() != my {
+				g.met.Add(1)
+				break
+			}
+			if i >= g.step || g.budget.Add(-1) < 0 {
+				break
+			}
+			runtime.Gosched()
+		}
+	}
+	return g.BlockChain.GetHeader(hash, number)
 }
 
 // c33Process runs the block on the parent state of chain with the chosen processor.
@@ -409,7 +632,14 @@ func c33Process(chain *core.BlockChain, parent *types.Header, block *types.Block
 		out.err = fmt.Errorf("VERIF-HARNESS-BUG: state at parent: %w", err)
 		return
 	}
-	res, err := core.NewStateProcessor(chain).Process(context.Background(), block, st, nil, nil, vm.Config{DisableParallelExecution: sequential}, nil)
+	var cc core.ChainContext = chain
+	if setup.gate > 0 {
+		g := &c33GatedChain{BlockChain: chain, below: parent.Number.Uint64(), step: setup.gate}
+		g.budget.Store(4096)
+		defer func() { out.met = g.met.Load() }()
+		cc = g
+	}
+	res, err := core.NewStateProcessor(cc).Process(context.Background(), block, st, nil, nil, vm.Config{DisableParallelExecution: sequential}, nil)
 	if err != nil {
 		out.err = err
 		return
@@ -1285,16 +1515,17 @@ func TestVerifC33Parallel(t *testing.T) {
 	oldProcs := runtime.GOMAXPROCS(0)
 	defer runtime.GOMAXPROCS(oldProcs)
 
-	logged := false
+	logged, ncase := false, 0
 	vs.Check(t, 1, func(rt *rapid.T) {
 		defer runtime.GOMAXPROCS(oldProcs)
+		ncase++
 		// A schedule-dependent failure cannot be reproduced (hence not reported with its
 		// message) by rapid: the first observed failure is logged on the test itself.
 		viol := func(format string, args ...any) {
 			msg := fmt.Sprintf(format, args...)
 			if !logged {
 				logged = true
-				t.Logf("C33 FIRST OBSERVED FAILURE (seed %d; rapid re-runs the case and cannot reproduce schedule-dependent failures):\n%s", vs.Seed(), msg)
+				t.Logf("C33 FIRST OBSERVED FAILURE (seed %d, generated case #%d; rapid re-runs the case and cannot reproduce schedule-dependent failures):\n%s", vs.Seed(), ncase, msg)
 			}
 			rt.Fatalf("%s", msg)
 		}
@@ -1303,7 +1534,8 @@ func TestVerifC33Parallel(t *testing.T) {
 			Variants:  []worldgen.Variant{worldgen.VariantByName("amsterdam")},
 			MaxBlocks: 2, MaxTxs: 10,
 		})
-		eng := c33Engineer(rt, w)
+		filler := c33Deepen(rt, w)
+		eng, readers := c33Engineer(rt, w)
 		scheme := []string{rawdb.HashScheme, rawdb.PathScheme}[ep.Uniform(rt, "scheme", 2)]
 		snap := ep.Uniform(rt, "snapshot", 2) == 1
 
@@ -1318,7 +1550,7 @@ func TestVerifC33Parallel(t *testing.T) {
 		last, parent := b.Blocks[n-1], b.Parent(n-1).Header()
 		txs := last.Transactions()
 		describe := func() string {
-			s := fmt.Sprintf("scheme=%s snapshot=%v engineered=%v blocks=%d last block: %d txs\n", scheme, snap, eng, n, len(txs))
+			s := fmt.Sprintf("scheme=%s snapshot=%v engineered=%v blocks=%d (the first %d without transactions) last block: %d txs\n", scheme, snap, eng, n, filler, len(txs))
 			for i, info := range b.Txs[n-1] {
 				s += fmt.Sprintf("  tx %d (index %d): from %x nonce %d to %v gas %d value %v | %s\n", i, i+1, info.From, info.Tx.Nonce(), info.Tx.To(), info.Tx.Gas(), info.Tx.Value(), info.Plan.Describe())
 			}
@@ -1372,10 +1604,48 @@ func TestVerifC33Parallel(t *testing.T) {
 			rt.Fatalf("VERIF-HARNESS-BUG: sequential rebuilt list differs from the chain maker's")
 		}
 
+		// Generator self-check for the blockhash-readers: what a successful call stored
+		// is the fold of the canonical ancestors' hashes (i.e. BLOCKHASH resolved them).
+		// walkers = successful reader transactions with lookups older than the parent.
+		walkers, walkLookups := 0, 0
+		if len(readers) > 0 {
+			byPlan := map[*worldgen.TxPlan]*c33ReaderCall{}
+			for _, rc := range readers {
+				byPlan[rc.plan] = rc
+			}
+			hashOf := func(num uint64) common.Hash {
+				if h := seqChain.GetHeaderByNumber(num); h != nil {
+					return h.Hash()
+				}
+				return common.Hash{}
+			}
+			for i, info := range b.Txs[n-1] {
+				rc := byPlan[info.Plan]
+				if rc == nil || seq.res.Receipts[i].Status != types.ReceiptStatusSuccessful {
+					continue
+				}
+				want := rc.expected(last.NumberU64(), hashOf)
+				if got := seq.st.GetState(c33Reader, common.BigToHash(new(big.Int).SetUint64(rc.slot))); got != want {
+					rt.Fatalf("VERIF-HARNESS-BUG: blockhash reader tx %d (k0=%d count=%d down=%v) stored %x under sequential execution, the header chain gives %x\n%s", i, rc.k0, rc.count, rc.down, got, want, describe())
+				}
+				if o := rc.older(last.NumberU64()); o > 0 {
+					walkers++
+					walkLookups += o
+				}
+			}
+		}
+
 		// Classes.
 		senders := make([]common.Address, len(txs))
 		for i, info := range b.Txs[n-1] {
 			senders[i] = info.From
+		}
+		c.Classf("chain-depth:%s", c33DepthBucket(n))
+		if len(readers) > 0 {
+			c.Classf("blockhash-walkers:%s", c33Bucket(walkers))
+			if walkers >= 2 && n >= 4 {
+				c.Class("blockhash:concurrent-old-ancestor-lookups-possible")
+			}
 		}
 		deps := c33FindDeps(mirror, last, senders)
 		c.Classf("store:%s/snap=%v", scheme, snap)
@@ -1420,8 +1690,14 @@ func TestVerifC33Parallel(t *testing.T) {
 			c.Class("has-logs")
 		}
 
-		// Positive part: parallel processor, repeated under different schedules.
-		for r := 0; r < reps; r++ {
+		// Positive part: parallel processor, repeated under different schedules (more
+		// often when several transactions resolve old ancestors: cheap blocks, and the
+		// schedule matters most there).
+		runs := reps
+		if walkers >= 2 {
+			runs += reps
+		}
+		for r := 0; r < runs; r++ {
 			procs := c33Procs[ep.Uniform(rt, "procs", len(c33Procs))]
 			noise := c33Pick(rt, "noise", []int{2, 1, 1})
 			runtime.GOMAXPROCS(procs)
@@ -1429,10 +1705,20 @@ func TestVerifC33Parallel(t *testing.T) {
 			if c33Pick(rt, "setup", []int{1, 2}) == 1 {
 				setup = c33Setup{real: true, threads: []int{1, 4, runtime.NumCPU()}[ep.Uniform(rt, "setup-threads", 3)], trieWarm: ep.Uniform(rt, "setup-trie-prefetcher", 3) != 0}
 			}
+			if c33Pick(rt, "header-gate", []int{1, 1}) == 1 {
+				setup.gate = []int{4, 32, 256}[ep.Uniform(rt, "header-gate-step", 3)]
+			}
 			stop := c33Noise(noise*2, rapid.Uint64().Draw(rt, "noise-seed"))
 			par := c33Process(parChain, parent, last, false, setup)
 			stop()
 			c.Classf("procs:%d", procs)
+			if setup.gate > 0 && walkers > 0 {
+				if par.met > 0 {
+					c.Class("header-gate:lookups-met")
+				} else {
+					c.Class("header-gate:never-met")
+				}
+			}
 			if setup.real {
 				c.Class("setup:shared-reader")
 			} else {
@@ -1568,9 +1854,24 @@ func TestVerifC33Parallel(t *testing.T) {
 		d := c33Descriptor(last, seq.res, deps, mirror)
 		c.NonTrivial(nontrivial, d)
 		c.Sample(nontrivial, func() any {
-			return map[string]any{"descriptor": d, "engineered": eng, "deps": deps.labels, "txs": len(txs), "mutations": mutDescs}
+			return map[string]any{"descriptor": d, "engineered": eng, "deps": deps.labels, "txs": len(txs), "blocks": n, "blockhash_walkers": walkers, "blockhash_old_lookups": walkLookups, "mutations": mutDescs}
 		})
 	})
+}
+
+func c33DepthBucket(n int) string {
+	switch {
+	case n <= 3:
+		return fmt.Sprint(n)
+	case n <= 16:
+		return "4-16"
+	case n <= 64:
+		return "17-64"
+	case n <= 255:
+		return "65-255"
+	default:
+		return "256+"
+	}
 }
 
 func c33Bucket(n int) string {
